@@ -5,10 +5,20 @@ CFG = {'assumptions': ['f64 inputs and outputs cross the boundary as bit pattern
                  "observed through geo's API, not proved",
                  'libm sin/cos/tan/atan2/asin/ln are engine parameters of the model; for Haversine distance, bearing '
                  'and destination the driver instantiates them with truncated series / Newton iterations on a '
-                 '2^-100 rational grid (GeoModel/GeodesyNum.lean, accuracy not proved) and demands agreement with '
-                 'the implementation to 1e-9 relative / a tenth of the millimetre tolerance'],
+                 '2^-100 rational grid (GeoModel/GeodesyNum.lean) and demands agreement with the implementation '
+                 'to 1e-9 relative / a tenth of the millimetre tolerance. Accuracy of the engine: PROVED against '
+                 "Mathlib's real functions for piQ (2e-40), sin/cos (2^-92 on the reduced range, 2^-91 up to "
+                 '|x| = 1000), sqrt (one grid step) and, given the a posteriori arcsine certificate '
+                 '(GeodesyNum.asinCert / havCert, evaluated by the driver on every Haversine pair; a failure is '
+                 'a model mismatch), for the Haversine distance: within R*2^-40 (6 micrometres on the mean Earth) '
+                 'of the real-number formula. NOT proved: convergence of the Newton arcsine (hence the '
+                 'certificate); the engine error of bearing and destination (atan2Q is proved only a posteriori and '
+                 'its certificate is not evaluated by the driver)'],
  'count': {'quick': 30000, 'thorough': 1500000},
- 'lean_files': ['GeoModel/Geodesy.lean', 'GeoModel/GeodesyNum.lean', 'GeoModel/Ops/C16.lean'],
+ 'lean_files': ['GeoModel/Geodesy.lean', 'GeoModel/GeodesyNum.lean', 'GeoModel/Ops/C16.lean',
+                'GeoProofs/Lemmas/C16QSeries.lean', 'GeoProofs/Lemmas/C16QTaylor.lean',
+                'GeoProofs/Lemmas/C16QTrig.lean', 'GeoProofs/Lemmas/C16QAsin.lean',
+                'GeoProofs/Lemmas/C16QHav.lean', 'GeoProofs/Lemmas/C16QAtan2.lean'],
  'rule': 'metric space in {Haversine, HaversineMeasure::new(R), Geodesic (WGS84), GeodesicMeasure::new(a, f), Rhumb} x '
          '{pair (a, b, ratio): distance both ways and to self, bearing both ways, round trip, ratio point, ratio 0/1; '
          'destination (a, bearing in [-720, 1080], distance in [-1e6, 9e6] m, +360k and reversed variants); '
@@ -43,4 +53,19 @@ MANIFEST = {'note': 'Label: partial. Trusted: Lean 4.33 kernel (axioms propext, 
  'technique': 'Lean 4 proofs about the normalisation / dispatch / fold logic and (over the reals, Mathlib) the '
               'Haversine and Rhumb distance expressions + a Lean checker of the metric identities on the '
               "implementation's values (millimetre tolerance, exact rational arithmetic) on generated point pairs",
- 'text': 'see lean/GeoProofs/Props/C16.lean'}
+ 'text': 'see lean/GeoProofs/Props/C16.lean. Proved for the model: bearing_range(_rounded), bearing_edges, '
+         'normalize_longitude_range / _id / _range_rounded (old formula: _partial + escape witness), length_sum, '
+         'length_degenerate, length_two, lengthMLS_sum, pointAtRatio_endpoints / _inner, pointsAlong_short / _ends / '
+         '_length, stepLoop_lt_one, geodesic_argument_order / _bearing_range / _distance_inherits / '
+         '_roundtrip_partial, haversine_symm / _nonneg / _self, rhumb_nonneg / _self (over the reals). Proved for '
+         'the rational engine of the driver against Mathlib real analysis (helpers in lean/GeoProofs/Lemmas/C16Q*.lean): '
+         'piQ_close (piQ < pi < piQ + 2e-40), reduce_range, ratSeries_close (33 rounded terms within 2^-93 of '
+         'sin/cos for |y| <= 3.15), ratSin_close / ratCos_close (every rational argument: 2^-92 + |k|*4e-40, k the '
+         'reduction multiple), ratSinCos_close_reduced (2^-92 on [-piQ, piQ)), ratSinCos_close_1000 (2^-91), '
+         'ratSqrt_close (0 <= r, r^2 <= q < (r + 2^-100)^2, residual), ratSqrt_real, arccos_a_posteriori '
+         '(|A - arccos x| <= 2t + pi*sqrt(eta/2)), ratAsin_close_partial (2^-42 given asinCert), '
+         'ratAtan2_close_partial (2^-41 against Complex.arg, root >= 2^-40, given asinCert), haversine_h_close '
+         '(2^-87, h in [0,1]), haversine_distance_engine_close_partial (|engine - real formula| <= R*2^-40 for '
+         '|lat| <= 90, |dlon| <= 1000, given havCert), its mean-Earth instance (6 micrometres), and '
+         'haversine_distance_engine_close_interior_partial (R*2^-84/delta when h and the arcsine stay delta away '
+         'from the ends: neither nearly coincident nor nearly antipodal).'}
